@@ -22,6 +22,7 @@ type InboundOpts struct {
 	AllowA      bool
 	AllowIQReq  bool // get/set (unmatched ones trigger automatic replies)
 	AllowBig    bool
+	MaxBig      int  // if > 0, big bodies stay below this many bytes
 	AllowNested bool // descendants named like the stanza itself
 	AllowSpace  bool // whitespace between elements
 	AllowEntity bool
@@ -37,6 +38,9 @@ var texts = []string{"hi", "hello world", "a &amp; b &lt;c&gt;", "Ã¼nÃ¯cÃ¶dÃ© âœ
 func genBody(g G, o InboundOpts) string {
 	if o.AllowBig && g.Pct("big", 6) {
 		n := []int{1500, 9000, 33000, 70000}[g.N("bigsz", 4)]
+		if o.MaxBig > 0 && n > o.MaxBig {
+			n = []int{o.MaxBig, o.MaxBig / 2, 4000, 4200}[g.N("bigsz-capped", 4)]
+		}
 		return strings.Repeat("0123456789abcdef", n/16)
 	}
 	if !o.AllowEntity {
